@@ -111,7 +111,7 @@ class Profile:
     def __init__(self, doc=None, p_doc_mostly=False, max_items=8, depth=3, kinds=None, body_max=4,
                  dangling=True, classes=True, tests=True, groups=True, moddoc=True, parseargs=True,
                  moddoc_indent=None, set_values=None, option_help=None, weights=None, generic_cmds=None,
-                 arg_pool=None, group_depth=2, max_args=4, min_items=0, impl_doc=False, nest_all=False):
+                 arg_pool=None, group_depth=2, max_args=4, min_items=0, impl_doc=False, nest_all=False, dups=False):
         self.doc = doc if doc is not None else benign_doc()
         self.p_doc_mostly = p_doc_mostly
         self.max_items = max_items
@@ -135,6 +135,7 @@ class Profile:
         self.min_items = min_items
         self.impl_doc = impl_doc          # implementing definitions may carry a doccomment of their own
         self.nest_all = nest_all          # tests and classes may also sit inside function/macro bodies
+        self.dups = dups                  # some items re-use the name of the previous item of their kind
 
     def mdoc(self):
         return maybe(self.doc, 0.2 if self.p_doc_mostly else 0.5)
@@ -215,6 +216,9 @@ def item(p, depth, ctx):
                                            "post": _test_extra(), "doc": p.mdoc()}))
     if p.dangling and want("dangling"):
         alts.append(st.fixed_dictionaries({"k": st.just("dangling"), "doc": p.doc}))
+    if p.dups:
+        alts = [a if _kind_of(a) in (None, "generic", "block", "parseargs", "dangling", "class") else
+                st.tuples(a, st.sampled_from([False] * 7 + [True])).map(_with_dup) for a in alts]
     if p.weights:
         # alternatives are dict strategies with a fixed "k"; repeat them by weight (0 drops the kind here)
         weighted = []
@@ -231,7 +235,18 @@ def item(p, depth, ctx):
     return st.one_of(*alts)
 
 
+def _with_dup(t):
+    d = dict(t[0])
+    if t[1]:
+        d["dup"] = True
+    return d
+
+
 def _kind_of(strategy):
+    try:
+        return strategy.mapped_strategy.element_strategies[0].mapping["k"].value
+    except Exception:
+        pass
     try:
         return strategy.wrapped_strategy.mapping["k"].value
     except Exception:
@@ -247,7 +262,7 @@ def _test_name():
 
 def _test_extra():
     return st.lists(st.sampled_from(["EXPECTFAIL", "COMMAND", "--flag@", "${exe@}", "XNAME", "NAME_@", "EXPECTFAIL_NOT@",
-                                     "WORKING_DIRECTORY", '"a b @"', "=NAME=", "same"]), max_size=3)
+                                     "WORKING_DIRECTORY", '"a b @"', "=NAME=", "same", '"a  b\t@"', '" lead @"', "[[x  y @]]"]), max_size=3)
 
 
 def _testlike(p, depth, kind):
@@ -279,6 +294,7 @@ def module(p):
 class _Counter:
     def __init__(self):
         self.n = 0
+        self.last = {}      # kind -> last name given to an item of that kind (for deliberate duplicates)
 
     def next(self):
         self.n += 1
@@ -292,6 +308,18 @@ def _num(x, c):
         n = str(c.next())
         return x.replace("@", n)
     return x
+
+
+def _dup_name(c, kind, fresh, dup):
+    """Deliberate duplicate: re-use the name of an earlier item of this kind - the previous one or the one before
+    it (A B A), so that a differently named item may sit between the two."""
+    hist = c.last.setdefault(kind, [])
+    if dup and hist:
+        name = hist[-2] if len(hist) >= 2 and c.n % 2 == 0 else hist[-1]
+    else:
+        name = fresh
+    hist.append(name)
+    return name
 
 
 def _fin_doc(d, c, bare_ok=True):
@@ -322,17 +350,18 @@ def _fin_items(lst, c, in_body):
     for it in lst:
         it = dict(it)
         k = it["k"]
+        dup = it.pop("dup", False)
         if k == "func":
-            it["name"] = _num(it["name"], c)
+            it["name"] = _dup_name(c, "func", _num(it["name"], c), dup)
             it["params"] = _num(it["params"], c)
             it["doc"] = _fin_doc(it["doc"], c)
             it["body"] = _fin_items(it["body"], c, True)
         elif k == "set":
-            it["name"] = _num(it["name"], c)
+            it["name"] = _dup_name(c, "set", _num(it["name"], c), dup)
             it["values"] = _num(it["values"], c)
             it["doc"] = _fin_doc(it["doc"], c)
         elif k == "option":
-            it["name"] = _num(it["name"], c)
+            it["name"] = _dup_name(c, "option", _num(it["name"], c), dup)
             it["help"] = _num(it["help"], c)
             it["default"] = _num(it["default"], c)
             it["doc"] = _fin_doc(it["doc"], c)
@@ -357,11 +386,11 @@ def _fin_items(lst, c, in_body):
             it["body"] = _fin_items(it["body"], c, True)
         elif k == "attr":
             it["cls"] = _num(it["cls"], c)
-            it["name"] = _num(it["name"], c)
+            it["name"] = _dup_name(c, "attr", _num(it["name"], c), dup)
             it["extra"] = _num(it["extra"], c)
             it["doc"] = _fin_doc(it["doc"], c)
         elif k in ("member", "test", "section"):
-            it["name"] = _num(it["name"], c)
+            it["name"] = _dup_name(c, k, _num(it["name"], c), dup)
             if k == "member":
                 it["cls"] = _num(it["cls"], c)
                 it["types"] = _num(it["types"], c)
@@ -376,7 +405,7 @@ def _fin_items(lst, c, in_body):
             impl["body"] = _fin_items(impl["body"], c, True)
             it["impl"] = impl
         elif k == "addtest":
-            it["name"] = _num(it["name"], c)
+            it["name"] = _dup_name(c, "addtest", _num(it["name"], c), dup)
             it["pre"] = [it["name"] if x == "same" else x for x in _num(it["pre"], c)]
             it["post"] = [it["name"] if x == "same" else x for x in _num(it["post"], c)]
             it["doc"] = _fin_doc(it["doc"], c)
